@@ -154,12 +154,22 @@ func (w *scriptedWatcher) autoSched(k int) WSched {
 		}
 		prune := i > 0 && plan[i-1].Kind == "GPrune"
 		for _, id := range g.IDs {
+			e := w.univ[id]
+			if prune && e.Fin {
+				// held by a finalizer: it never goes away; the wait can only time out
+				d := SObs{ID: id, St: STerminating, Body: true, Gen: objGen}
+				if o := w.st.get(e.GVR, e.Meta.Namespace, e.Meta.Name); o != nil {
+					d.UID = uidNum(o.GetUID())
+				}
+				sched.Deliv = append(sched.Deliv, d)
+				sched.End = WTimeout
+				continue
+			}
 			if prune {
 				sched.Deliv = append(sched.Deliv, SObs{ID: id, St: SNotFound})
 				continue
 			}
 			d := SObs{ID: id, St: SCurrent, Body: true, Gen: objGen}
-			e := w.univ[id]
 			if o := w.st.get(e.GVR, e.Meta.Namespace, e.Meta.Name); o != nil {
 				d.UID = uidNum(o.GetUID())
 			}
